@@ -212,7 +212,14 @@ theorem serUnitStruct_par (ext : Ext) (name : String) : Par U (serUnitStruct ext
   unfold serUnitStruct; exact viaUnion_rel (fun n => by par_auto)
 
 theorem serUnitVariant_par (ext : Ext) (v : String) : Par U (serUnitVariant ext S node v) := by
-  unfold serUnitVariant; exact viaUnion_rel (fun n => by par_auto)
+  have hAt : ∀ n, Par U (serUnitVariantAt ext v n) := by
+    intro n; unfold serUnitVariantAt; par_auto
+  unfold serUnitVariant
+  split
+  · split
+    · exact writeVarI64_par _
+    · exact viaUnion_rel hAt
+  · exact viaUnion_rel hAt
 
 theorem blockNew_par (n : Nat) : Par U (blockNew n) := by
   unfold blockNew; par_auto
